@@ -107,6 +107,8 @@ structure CondHdrs where
   ifNoneMatch : Option (List ETag) := none
   unmodSince : Option Int := none
   modSince : Option Int := none
+  /-- `request.if_range` as POSIX seconds (`none` = absent, or not an HTTP-date — e.g. an entity tag) -/
+  ifRange : Option Int := none
 deriving Repr
 
 def nsPerSec : Int := 1000000000
@@ -198,13 +200,19 @@ structure Resp where
   body : Bytes
 deriving Repr, DecidableEq
 
+/-- `(ifrange := request.if_range) is None or file_mtime <= ifrange.timestamp()` -/
+def ifRangeOk (mtimeNs : Nat) (h : CondHdrs) : Bool :=
+  match h.ifRange with
+  | none => true
+  | some t => decide ((mtimeNs : Int) ≤ t * nsPerSec)
+
 def fileResponse (chunkSize : Nat) (isHead : Bool) (cur : Str) (mtimeNs : Nat) (h : CondHdrs)
-    (ifRangeOk : Bool) (rng : Option Str) (content : Bytes) : Resp :=
+    (rng : Option Str) (content : Bytes) : Resp :=
   match makeResponse cur mtimeNs h with
   | .precondFailed => { status := Gen.C15.stPrecondFailed, contentRange := .absent, contentLength := some 0, body := [] }
   | .notModified => { status := Gen.C15.stNotModified, contentRange := .absent, contentLength := none, body := [] }
   | .send =>
-    let p := prepareOpenFile isHead ifRangeOk rng content.length
+    let p := prepareOpenFile isHead (ifRangeOk mtimeNs h) rng content.length
     { status := p.status, contentRange := p.contentRange, contentLength := p.contentLength,
       body := sendBytes chunkSize content p }
 
